@@ -439,7 +439,7 @@ def _check_xproc(case):
     d = tempfile.mkdtemp(prefix="c15-xproc-", dir=str(env.scratch()))
     try:
         r = subprocess.run([sys.executable, "-c", _XPROC, str(env.SRC), str(env.VERIF), d], capture_output=True, text=True,
-                           env=dict(os.environ, PYTHONHASHSEED="0"), timeout=600)
+                           env=dict(os.environ, PYTHONHASHSEED="987654"), timeout=600)  # another process = another string-hash salt
         if "populated" not in r.stdout:
             out.bad(f"a second process solving every request with the cache attached failed: {r.stderr[-400:]}")
             return out
